@@ -347,10 +347,14 @@ def extract_gen(tlc_out, dest, tagname="GEN"):
 # evidence, findings, verdicts
 
 def known_findings():
-    p = os.path.join(ROOT, "known_findings.json")
-    if not os.path.exists(p):
-        return []
-    return json.load(open(p)).get("findings", [])
+    """/verif/known_findings.json (committed, read-only at run time).  For development only,
+    VERIF_EXTRA_FINDINGS=<file>[:<file>] adds proposal files (docs/findings_cNN.json)."""
+    res = []
+    paths = [os.path.join(ROOT, "known_findings.json")] + [x for x in os.environ.get("VERIF_EXTRA_FINDINGS", "").split(":") if x]
+    for p in paths:
+        if os.path.exists(p):
+            res += json.load(open(p)).get("findings", [])
+    return res
 
 
 def write_evidence(prop, tier, seed, level, coverage, wall, assumptions, violations=0):
